@@ -18,9 +18,9 @@ import (
 	"github.com/antonmedv/expr/file"
 )
 
-// lcOf computes (line, column) of rune offset k the documented way: line = 1 + number of newlines
+// c13LcOf computes (line, column) of rune offset k the documented way: line = 1 + number of newlines
 // before k, column = runes since the last newline (0-based).  Independent of the library.
-func lcOf(runes []rune, k int) (int, int) {
+func c13LcOf(runes []rune, k int) (int, int) {
 	line, col := 1, 0
 	for i := 0; i < k && i < len(runes); i++ {
 		if runes[i] == '\n' {
@@ -137,7 +137,7 @@ func c13Source(c *Ctx) {
 			col := c.Rng.Intn(14) - 1
 			if j == 0 && len(runes) > 0 { // an in-source position
 				k := c.Rng.Intn(len(runes) + 1)
-				line, col = lcOf(runes, k)
+				line, col = c13LcOf(runes, k)
 			}
 			msg := []string{"m", "unknown name é", "", "x (1:1)"}[c.Rng.Intn(4)]
 			in := fmt.Sprintf("Bind(%q, %d:%d, %q)", src, line, col, msg)
@@ -147,7 +147,7 @@ func c13Source(c *Ctx) {
 		}
 		// the harness's own position rule vs the model's posOf (the theorems are about posOf)
 		for k := 0; k <= len(runes); k++ {
-			l, cc := lcOf(runes, k)
+			l, cc := c13LcOf(runes, k)
 			cases = append(cases, cs{"posof", fmt.Sprintf("posOf(%q, %d)", src, k), T("loc", SInt(int64(l)), SInt(int64(cc))).String()})
 			lines = append(lines, T("posof", SStr(src), SInt(int64(k))).String())
 		}
